@@ -820,8 +820,9 @@ where
                 Err(_) => ProcessorStep::NotReady,
             },
             VBranch::Clear => match self.clear_rx.try_recv() {
-                Ok(_) => {
+                Ok(wg) => {
                     let r = self.handle_clear_event();
+                    wg.done();
                     ProcessorStep::Clear(r.is_ok())
                 }
                 Err(_) => ProcessorStep::NotReady,
@@ -832,7 +833,10 @@ where
             }
             VBranch::Stop(ms) => {
                 match self.stop_rx.recv_timeout(Duration::from_millis(ms)) {
-                    Ok(_) => ProcessorStep::Stopped,
+                    Ok(_) => {
+                        self.release_waiters();
+                        ProcessorStep::Stopped
+                    }
                     Err(_) => ProcessorStep::NotReady,
                 }
             }
